@@ -4,6 +4,7 @@ package c18
 
 import (
 	"bytes"
+	"context"
 	"errors"
 	"fmt"
 	"hash/fnv"
@@ -17,6 +18,7 @@ import (
 	"github.com/cedar-policy/cedar-go/types"
 	"github.com/cedar-policy/cedar-go/verifharness/core"
 	"github.com/cedar-policy/cedar-go/verifharness/gen"
+	"github.com/cedar-policy/cedar-go/x/exp/batch"
 )
 
 type Prop struct{}
@@ -338,16 +340,17 @@ func samePolicies(a, b []*cedar.Policy) (bool, string) {
 // reader schedules
 
 type fault struct {
-	kind   string // "", "err0" (0 bytes + error), "errn" (n>0 bytes + error), "eof" (early EOF)
-	at     int    // byte position
-	follow string // "sticky" | "then-eof" | "transient"
+	errKind int    // index into faultErrors
+	kind    string // "", "err0" (0 bytes + error), "errn" (n>0 bytes + error), "eof" (early EOF)
+	at      int    // byte position
+	follow  string // "sticky" | "then-eof" | "transient"
 }
 
 func (f fault) String() string {
 	if f.kind == "" {
 		return "none"
 	}
-	return fmt.Sprintf("%s@%d/%s", f.kind, f.at, f.follow)
+	return fmt.Sprintf("%s@%d/%s/err%d", f.kind, f.at, f.follow, f.errKind)
 }
 
 type schedule struct {
@@ -364,6 +367,16 @@ type chunkStats struct {
 }
 
 var errFault = verifsim.ErrInjected
+
+// faultErrors are the values an injected (non-transient) reader failure may carry: a plain
+// error, io.ErrUnexpectedEOF (what a truncated compressed stream reports), an error wrapping
+// it, and an error that merely prints as "EOF".  None of them is io.EOF.
+var faultErrors = []error{
+	verifsim.ErrInjected,
+	io.ErrUnexpectedEOF,
+	fmt.Errorf("layered reader: %w", io.ErrUnexpectedEOF),
+	errors.New("EOF"),
+}
 
 // makeReader builds a SimReader over data whose decisions come from tape.
 func makeReader(tape *verifsim.Tape, data []byte, sch schedule, f fault, interesting []int, keepLog bool) (*verifsim.SimReader, *chunkStats) {
@@ -457,13 +470,14 @@ func makeReader(tape *verifsim.Tape, data []byte, sch schedule, f fault, interes
 }
 
 func faultPlan(f fault, n int) verifsim.ReadPlan {
+	fe := faultErrors[f.errKind%len(faultErrors)]
 	switch f.follow {
 	case "transient":
 		return verifsim.ReadPlan{N: n, Err: fmt.Errorf("%w at byte %d", verifsim.ErrTransient, f.at)}
 	case "then-eof":
-		return verifsim.ReadPlan{N: n, Err: errFault, Then: io.EOF}
+		return verifsim.ReadPlan{N: n, Err: fe, Then: io.EOF}
 	default:
-		return verifsim.ReadPlan{N: n, Err: errFault}
+		return verifsim.ReadPlan{N: n, Err: fe}
 	}
 }
 
@@ -535,7 +549,7 @@ func (p Prop) Run(r *core.Run) *core.Violation {
 		sch := schedule{style: r.T.Intn(4), eofStyle: r.T.Intn(2)}
 		return p.oneSchedule(r, doc, base, sch, fault{}, inside, cont, interesting, limit)
 	case mode <= 5:
-		f := fault{kind: []string{"err0", "errn", "eof"}[r.T.Intn(3)], at: r.T.Intn(len(doc.data) + 1), follow: []string{"sticky", "then-eof", "transient"}[r.T.Intn(3)]}
+		f := fault{kind: []string{"err0", "errn", "eof"}[r.T.Intn(3)], at: r.T.Intn(len(doc.data) + 1), follow: []string{"sticky", "then-eof", "transient"}[r.T.Intn(3)], errKind: r.T.Intn(len(faultErrors))}
 		sch := schedule{style: r.T.Intn(4), eofStyle: r.T.Intn(2)}
 		return p.oneSchedule(r, doc, base, sch, f, inside, cont, interesting, limit)
 	default:
@@ -549,7 +563,7 @@ func (p Prop) Run(r *core.Run) *core.Violation {
 				}
 				for _, fo := range follows {
 					sch := schedule{style: r.T.Intn(4), eofStyle: r.T.Intn(2)}
-					if v := p.oneSchedule(r, doc, base, sch, fault{kind: k, at: at, follow: fo}, inside, cont, interesting, limit); v != nil {
+					if v := p.oneSchedule(r, doc, base, sch, fault{kind: k, at: at, follow: fo, errKind: r.T.Intn(len(faultErrors))}, inside, cont, interesting, limit); v != nil {
 						return v
 					}
 				}
@@ -828,6 +842,24 @@ func (p Prop) checkPositions(r *core.Run, doc *document, pols []*cedar.Policy, d
 			return core.Violationf("diagnostic-position", "diagnostic-position", "error for %s reports %+v, policy position is %+v", e.PolicyID, e.Position, want[e.PolicyID])
 		}
 		r.Count("reach.error_positions_checked")
+	}
+	// the batch authorizer reports the same positions (no variables: one callback)
+	berr := batch.Authorize(context.Background(), ps, ents, batch.Request{Principal: req.Principal, Action: req.Action, Resource: req.Resource, Context: req.Context, Variables: batch.Variables{}}, func(res batch.Result) error {
+		for _, rs := range res.Diagnostic.Reasons {
+			if rs.Position != want[rs.PolicyID] {
+				return fmt.Errorf("batch reason for %s reports %+v, policy position is %+v", rs.PolicyID, rs.Position, want[rs.PolicyID])
+			}
+		}
+		for _, e := range res.Diagnostic.Errors {
+			if e.Position != want[e.PolicyID] {
+				return fmt.Errorf("batch error for %s reports %+v, policy position is %+v", e.PolicyID, e.Position, want[e.PolicyID])
+			}
+			r.Count("reach.batch_error_positions_checked")
+		}
+		return nil
+	})
+	if berr != nil {
+		return core.Violationf("diagnostic-position", "diagnostic-position-batch", "%v", berr)
 	}
 	// and with a file name, through the whole-slice loader
 	if doc.damaged == "" && len(data) == len(doc.data) {
